@@ -13,7 +13,7 @@ Line-protocol driver for C12.
 
 Frame tokens (prefix form): E <ending> | S k v F | T k v F | L n tag F | D addr
   | C id kind target value F F | N id two salt value F F | A id auth nonce target value F F
-  | K amount F | U amount F | V F
+  | K amount F | U amount F | V F | Q addr F   (STAKE / UNSTAKE amount in whole RPG, UNSTAKEALL, STAKENUM)
 Anything unparsable answers `bad-op`.
 -/
 namespace Rangers.Drive.C12
@@ -95,6 +95,7 @@ partial def parseFrame : List String → Option (Frame × List String)
   | "K" :: a :: r => do let a ← a.toNat?; let (f, r) ← parseFrame r; pure (.stake a f, r)
   | "U" :: a :: r => do let a ← a.toNat?; let (f, r) ← parseFrame r; pure (.unstake a f, r)
   | "V" :: r => do let (f, r) ← parseFrame r; pure (.unstakeall f, r)
+  | "Q" :: a :: r => do let a ← parseAddr a; let (f, r) ← parseFrame r; pure (.stakenum a f, r)
   | _ => none
 
 def parseBool : String → Option Bool
@@ -110,7 +111,10 @@ partial def parseAccounts (st : St) : List String → Option St
     match kind with
     | "e" => parseAccounts { st with w := w } r
     | "h" => parseAccounts { st with w := w.setCode a .hosted } r
-    | "m" => parseAccounts { st with w := w.setCode a .hosted, miners := a :: st.miners } r
+    | "m" =>
+      -- a contract registered as validator miner account: stake 400 (ValidatorStake), `b` is the balance left
+      let w1 := w.setCode a .hosted
+      parseAccounts { st with w := { w1 with stake := w1.stake.set a 400 }, miners := a :: st.miners } r
     | "p" => parseAccounts { st with w := w, pre := a :: st.pre } r
     | _ => none
   | _ => none
